@@ -60,8 +60,13 @@ def geo_dist(seg, kind):
         return np.asarray(np.hypot(ap[:, 0], ap[:, 1]), dtype=float)
     if kind == 'perpendicular':
         return np.asarray(np.abs(ab[0] * ap[:, 1] - ab[1] * ap[:, 0]) / np.sqrt(L2), dtype=float)
-    t = np.clip((ap[:, 0] * ab[0] + ap[:, 1] * ab[1]) / L2, 0, 1)
-    return np.asarray(np.hypot(ap[:, 0] - t * ab[0], ap[:, 1] - t * ab[1]), dtype=float)
+    # foot of the perpendicular inside the chord: the perpendicular distance (cross product form - subtracting t*ab from ap
+    # would leave a residue of ~1e-19*|ap| of its own); otherwise the distance to the nearer end point
+    t = (ap[:, 0] * ab[0] + ap[:, 1] * ab[1]) / L2
+    perp = np.abs(ab[0] * ap[:, 1] - ab[1] * ap[:, 0]) / np.sqrt(L2)
+    bp = P - P[-1]
+    d = np.where(t <= 0, np.hypot(ap[:, 0], ap[:, 1]), np.where(t >= 1, np.hypot(bp[:, 0], bp[:, 1]), perp))
+    return np.asarray(d, dtype=float)
 
 
 def pop_max_hook(ctxbox):
@@ -119,6 +124,17 @@ def cases(rng, tier, shard, nshards):
         if rng.random() < 0.04:
             # int64 magnitudes 1e9..1e10: products of two coordinate differences do not fit int64
             c.update({'points': gen.large_int_curve(rng, nmax=40), 'family': 'large-int64', 'layout': 'i64'})
+        if rng.random() < 0.05 and c['family'] != 'large-int64':
+            # a miss-ratio curve over cache sizes in bytes: x scaled by 2^20..2^40 (exact), y scaled into [0, 1] - the chord
+            # is ~1e6..1e12 long while every deviation from it is below 1: tolerances tied to the chord length show here
+            p2 = np.array(pts, dtype=float)
+            p2[:, 0] = (p2[:, 0] - p2[0, 0] + 1.0) * float(2 ** int(rng.integers(20, 41)))
+            ymax = float(np.max(np.abs(p2[:, 1])))
+            if ymax > 0:
+                p2[:, 1] = p2[:, 1] / (2.0 ** np.ceil(np.log2(ymax))) * float(pick(rng, [1.0, 1.0, 2.0 ** -10]))
+            if np.all(np.isfinite(p2)) and np.all(np.diff(p2[:, 0]) > 0):
+                c.update({'points': np.ascontiguousarray(p2), 'family': c['family'] + '+byte-scale-x',
+                          'layout': pick(rng, ['C', 'F', 'view'])})
         if rng.random() < 0.35 and len(pts) <= 40:
             # history: a second chain on the SAME array under another distance / ordering (state kept between
             # calls must not leak from one configuration into the next)
@@ -170,8 +186,7 @@ def run_chain(ctx, mods, case, pts, dn, on):
             seg = pts[a:b + 1]
             dd = geo_dist(seg, dn)       # independent geometry (long double), not the library's distance primitive
             dmax = float(np.max(dd[1:-1]))
-            scale = float(np.max(np.abs(np.asarray(seg, dtype=float) - np.asarray(seg[0], dtype=float)))) + float(np.hypot(*(np.asarray(seg[-1], float) - np.asarray(seg[0], float))))
-            tol = max(64 * EPS * scale, EPS)
+            tol = models.farthest_tol(seg, dn)
             slack = (dmax - float(dd[g - a])) / tol
             ctx.mx('farthest_slack_over_tol', slack)
             ctx.check(dd[g - a] >= dmax - tol, 'greedy', 'greedy:not-farthest',
